@@ -1527,6 +1527,8 @@ func makeTaskForMesosResources(
 		}()).
 		Debug("creating Mesos task")
 	resourcesRequest.Add(executorResources...)
+	// What this task requests is no longer available to the next task on this offer
+	remainingResourcesInOffer.Subtract(resourcesRequest...)
 
 	newTaskId := taskPtr.GetTaskId()
 
